@@ -239,6 +239,14 @@ module Nat =
     | S n' -> (match m with
                | O -> O
                | S m' -> S (min n' m'))
+
+  (** val div2 : nat -> nat **)
+
+  let rec div2 = function
+  | O -> O
+  | S n1 -> (match n1 with
+             | O -> O
+             | S n' -> S (div2 n'))
  end
 
 module Pos =
@@ -680,6 +688,14 @@ let rec last l d =
                 | [] -> a
                 | _ :: _ -> last l0 d)
 
+(** val removelast : 'a1 list -> 'a1 list **)
+
+let rec removelast = function
+| [] -> []
+| a :: l0 -> (match l0 with
+              | [] -> []
+              | _ :: _ -> a :: (removelast l0))
+
 (** val rev0 : 'a1 list -> 'a1 list **)
 
 let rec rev0 = function
@@ -787,6 +803,20 @@ module Z =
     match compare x y with
     | Gt -> false
     | _ -> true
+
+  (** val ltb : z -> z -> bool **)
+
+  let ltb x y =
+    match compare x y with
+    | Lt -> true
+    | _ -> false
+
+  (** val gtb : z -> z -> bool **)
+
+  let gtb x y =
+    match compare x y with
+    | Gt -> true
+    | _ -> false
 
   (** val eqb : z -> z -> bool **)
 
@@ -2209,6 +2239,128 @@ let run ops =
     add_dependencies prov (fst (fst o)) (snd (fst o)) (snd o)) ops
     empty_provider
 
+type 'i heap = ('i * z) list
+
+(** val set_nth : nat -> 'a1 -> 'a1 list -> 'a1 list **)
+
+let rec set_nth n0 a = function
+| [] -> []
+| x :: r -> (match n0 with
+             | O -> a :: r
+             | S n' -> x :: (set_nth n' a r))
+
+(** val swap_pos : 'a1 heap -> nat -> nat -> 'a1 heap **)
+
+let swap_pos h i j =
+  match nth_error h i with
+  | Some a ->
+    (match nth_error h j with
+     | Some b -> set_nth j a (set_nth i b h)
+     | None -> h)
+  | None -> h
+
+(** val find_pos : ('a1 -> 'a1 -> bool) -> 'a1 -> 'a1 heap -> nat option **)
+
+let rec find_pos ieqb p = function
+| [] -> None
+| p0 :: r ->
+  let (q, _) = p0 in
+  if ieqb p q then Some O else option_map (fun x -> S x) (find_pos ieqb p r)
+
+(** val bubble_up : nat -> 'a1 heap -> nat -> ('a1 * z) -> 'a1 heap * nat **)
+
+let rec bubble_up fuel h pos it =
+  match fuel with
+  | O -> ((set_nth pos it h), pos)
+  | S f ->
+    (match pos with
+     | O -> ((set_nth pos it h), pos)
+     | S _ ->
+       let pp = Nat.div2 (sub pos (S O)) in
+       (match nth_error h pp with
+        | Some par ->
+          if Z.ltb (snd par) (snd it)
+          then bubble_up f (set_nth pos par h) pp it
+          else ((set_nth pos it h), pos)
+        | None -> ((set_nth pos it h), pos)))
+
+(** val heapify : nat -> 'a1 heap -> nat -> 'a1 heap **)
+
+let rec heapify fuel h i =
+  match fuel with
+  | O -> h
+  | S f ->
+    (match nth_error h i with
+     | Some ei ->
+       (match nth_error h (add (mul (S (S O)) i) (S O)) with
+        | Some el ->
+          let largest =
+            if Z.gtb (snd el) (snd ei) then add (mul (S (S O)) i) (S O) else i
+          in
+          let largestp = if Z.gtb (snd el) (snd ei) then snd el else snd ei in
+          let largest' =
+            match nth_error h (add (mul (S (S O)) i) (S (S O))) with
+            | Some er ->
+              if Z.gtb (snd er) largestp
+              then add (mul (S (S O)) i) (S (S O))
+              else largest
+            | None -> largest
+          in
+          if Nat.eqb largest' i
+          then h
+          else heapify f (swap_pos h i largest') largest'
+        | None -> h)
+     | None -> h)
+
+(** val heap_push :
+    ('a1 -> 'a1 -> bool) -> 'a1 heap -> 'a1 -> z -> 'a1 heap **)
+
+let heap_push ieqb h p z0 =
+  match find_pos ieqb p h with
+  | Some pos ->
+    let (h1, pos1) = bubble_up (S pos) h pos (p, z0) in
+    heapify (S (length h1)) h1 pos1
+  | None ->
+    fst (bubble_up (S (length h)) (app h ((p, z0) :: [])) (length h) (p, z0))
+
+(** val heap_pop : 'a1 heap -> (('a1 * z) * 'a1 heap) option **)
+
+let heap_pop = function
+| [] -> None
+| e :: r ->
+  (match r with
+   | [] -> Some (e, [])
+   | _ :: _ ->
+     let h1 = (last r e) :: (removelast r) in
+     Some (e, (heapify (S (length h1)) h1 O)))
+
+type 'i hop =
+| HPush of 'i * z
+| HPop
+| HClear
+
+(** val heap_step :
+    ('a1 -> 'a1 -> bool) -> 'a1 heap -> 'a1 hop -> 'a1 heap * ('a1 * z) option **)
+
+let heap_step ieqb h = function
+| HPush (p, z0) -> ((heap_push ieqb h p z0), None)
+| HPop ->
+  (match heap_pop h with
+   | Some p -> let (e, h') = p in (h', (Some e))
+   | None -> (h, None))
+| HClear -> ([], None)
+
+(** val heap_run :
+    ('a1 -> 'a1 -> bool) -> 'a1 heap -> 'a1 hop list -> ('a1 * z) option list **)
+
+let rec heap_run ieqb h = function
+| [] -> []
+| o :: r ->
+  let (h', out) = heap_step ieqb h o in
+  (match o with
+   | HPop -> out :: (heap_run ieqb h' r)
+   | _ -> heap_run ieqb h' r)
+
 type pkg0 = n
 
 type ('vS, 'vr) kind =
@@ -3472,6 +3624,296 @@ let rec resolve_loop o veqb0 fuel st next added tr n0 log =
 
 let resolve o veqb0 fuel r v tr =
   resolve_loop o veqb0 fuel (state_init o r v) r [] tr O []
+
+(** val heap_after_propagation :
+    (pkg0 * (z * 'a1)) list -> pkg0 heap -> pkg0 heap **)
+
+let heap_after_propagation q hp =
+  match q with
+  | [] -> []
+  | _ :: _ -> hp
+
+(** val heap_pushes : pkg0 heap -> ('a1, 'a2) event list -> pkg0 heap **)
+
+let rec heap_pushes hp = function
+| [] -> hp
+| e :: r ->
+  (match e with
+   | EvPrioritize (p, _, prio) -> heap_pushes (heap_push N.eqb hp p prio) r
+   | _ -> heap_pushes hp r)
+
+(** val resolve_loop_h :
+    ('a1, 'a2) vSOps -> ('a2 -> 'a2 -> bool) -> nat -> ('a1, 'a2) state ->
+    pkg0 -> (pkg0 * 'a2) list -> pkg0 heap -> ('a1, 'a2) event list -> nat ->
+    'a1 pick_info list -> ('a1, 'a2) result **)
+
+let rec resolve_loop_h o veqb0 fuel st next added hp tr n0 log =
+  match fuel with
+  | O -> (((OOutOfFuel, st), log), n0)
+  | S fuel' ->
+    (match tr with
+     | [] -> ((((OMismatch (n0, (Npos (XI (XO XH))))), st), log), n0)
+     | e :: tr1 ->
+       (match e with
+        | EvCancel ok ->
+          if negb ok
+          then (((OErrCancel, st), log), (S n0))
+          else (match unit_propagation o fuel st (next :: []) with
+                | Inl u ->
+                  (match u with
+                   | UPOk st1 ->
+                     (match do_prioritize o (pick_candidates st1.ps)
+                              st1.ps.queue tr1 (S n0) with
+                      | Inl p ->
+                        let (p0, n2) = p in
+                        let (q, tr2) = p0 in
+                        let hp1 = heap_after_propagation st1.ps.queue hp in
+                        let hp2 = heap_pushes hp1 (firstn (sub n2 (S n0)) tr1)
+                        in
+                        let p1 = st1.ps in
+                        let log1 =
+                          app log ((((undecided_positive p1), q), n2) :: [])
+                        in
+                        let with_queue = fun q' -> { next_gidx =
+                          p1.next_gidx; level = p1.level; assignments =
+                          p1.assignments; queue = q'; changed =
+                          (length p1.assignments); backtracked =
+                          p1.backtracked }
+                        in
+                        (match queue_max q with
+                         | Some mx ->
+                           (match tr2 with
+                            | [] ->
+                              ((((OMismatch (n2, (Npos (XO (XO XH))))), st1),
+                                log1), n2)
+                            | e0 :: tr3 ->
+                              (match e0 with
+                               | EvChoose (p2, s, ans) ->
+                                 (match heap_pop hp2 with
+                                  | Some p3 ->
+                                    let (p4, hp3) = p3 in
+                                    let (hpk, _) = p4 in
+                                    if negb (N.eqb p2 hpk)
+                                    then ((((OMismatch (n2, (Npos (XO (XI
+                                           XH))))), st1), log1), n2)
+                                    else (match get p2 q with
+                                          | Some p5 ->
+                                            let (prio, _) = p5 in
+                                            if negb (Z.eqb prio mx)
+                                            then ((((OPickNotMax (n2, p2)),
+                                                   st1), log1), n2)
+                                            else let st2 =
+                                                   upd_ps st1
+                                                     (with_queue
+                                                       (remove p2 q))
+                                                 in
+                                                 (match term_for st2.ps p2 with
+                                                  | Some ti ->
+                                                    (match ti with
+                                                     | Pos cur_set ->
+                                                       if negb
+                                                            (o.vs_eqb s
+                                                              cur_set)
+                                                       then ((((OMismatch
+                                                              (n2, (Npos (XO
+                                                              XH)))), st2),
+                                                              log1), n2)
+                                                       else (match ans with
+                                                             | CSome v ->
+                                                               if negb
+                                                                    (t_contains
+                                                                    o ti v)
+                                                               then ((((OFailure
+                                                                    FIncompatibleVersion),
+                                                                    st2),
+                                                                    log1), (S
+                                                                    n2))
+                                                               else if 
+                                                                    added_has
+                                                                    veqb0
+                                                                    added p2 v
+                                                                    then 
+                                                                    res_out
+                                                                    log1 (S
+                                                                    n2)
+                                                                    (add_decision
+                                                                    o st2.ps
+                                                                    p2 v)
+                                                                    (fun p' ->
+                                                                    resolve_loop_h
+                                                                    o veqb0
+                                                                    fuel'
+                                                                    (upd_ps
+                                                                    st2 p')
+                                                                    p2 added
+                                                                    hp3 tr3
+                                                                    (S n2)
+                                                                    log1) st2
+                                                                    else 
+                                                                    let added' =
+                                                                    (p2,
+                                                                    v) :: added
+                                                                    in
+                                                                    (
+                                                                    match tr3 with
+                                                                    | [] ->
+                                                                    ((((OMismatch
+                                                                    ((S n2),
+                                                                    (Npos (XI
+                                                                    XH)))),
+                                                                    st2),
+                                                                    log1), (S
+                                                                    n2))
+                                                                    | e1 :: tr4 ->
+                                                                    (match e1 with
+                                                                    | EvDeps (
+                                                                    p', v',
+                                                                    dans) ->
+                                                                    if 
+                                                                    negb
+                                                                    ((&&)
+                                                                    (N.eqb p2
+                                                                    p')
+                                                                    (veqb0 v
+                                                                    v'))
+                                                                    then 
+                                                                    ((((OMismatch
+                                                                    ((S n2),
+                                                                    (Npos (XI
+                                                                    XH)))),
+                                                                    st2),
+                                                                    log1), (S
+                                                                    n2))
+                                                                    else 
+                                                                    (match dans with
+                                                                    | DAvail deps ->
+                                                                    res_out
+                                                                    log1 (S
+                                                                    (S n2))
+                                                                    (add_incompatibility_from_dependencies
+                                                                    o st2 p2
+                                                                    v deps)
+                                                                    (fun pat ->
+                                                                    let (
+                                                                    st3,
+                                                                    range0) =
+                                                                    pat
+                                                                    in
+                                                                    res_out
+                                                                    log1 (S
+                                                                    (S n2))
+                                                                    (add_version
+                                                                    o st3.ps
+                                                                    p2 v
+                                                                    range0
+                                                                    st3.store)
+                                                                    (fun p'0 ->
+                                                                    resolve_loop_h
+                                                                    o veqb0
+                                                                    fuel'
+                                                                    (upd_ps
+                                                                    st3 p'0)
+                                                                    p2 added'
+                                                                    hp3 tr4
+                                                                    (S (S
+                                                                    n2)) log1)
+                                                                    st3) st2
+                                                                    | DUnavail m ->
+                                                                    res_out
+                                                                    log1 (S
+                                                                    (S n2))
+                                                                    (add_incompatibility
+                                                                    o st2
+                                                                    (custom_version
+                                                                    o p2 v m))
+                                                                    (fun st3 ->
+                                                                    resolve_loop_h
+                                                                    o veqb0
+                                                                    fuel' st3
+                                                                    p2 added'
+                                                                    hp3 tr4
+                                                                    (S (S
+                                                                    n2)) log1)
+                                                                    st2
+                                                                    | DErr ->
+                                                                    ((((OErrDeps
+                                                                    (p2, v)),
+                                                                    st2),
+                                                                    log1), (S
+                                                                    (S n2))))
+                                                                    | _ ->
+                                                                    ((((OMismatch
+                                                                    ((S n2),
+                                                                    (Npos (XI
+                                                                    XH)))),
+                                                                    st2),
+                                                                    log1), (S
+                                                                    n2))))
+                                                             | CNone ->
+                                                               (match 
+                                                                no_versions
+                                                                  p2 ti with
+                                                                | Some inc ->
+                                                                  res_out
+                                                                    log1 (S
+                                                                    n2)
+                                                                    (add_incompatibility
+                                                                    o st2 inc)
+                                                                    (fun st3 ->
+                                                                    resolve_loop_h
+                                                                    o veqb0
+                                                                    fuel' st3
+                                                                    p2 added
+                                                                    hp3 tr3
+                                                                    (S n2)
+                                                                    log1) st2
+                                                                | None ->
+                                                                  ((((OPanic
+                                                                    PNoVersionsNegative),
+                                                                    st2),
+                                                                    log1), (S
+                                                                    n2)))
+                                                             | CErr ->
+                                                               (((OErrChoose,
+                                                                 st2), log1),
+                                                                 (S n2)))
+                                                     | Neg _ ->
+                                                       ((((OPanic
+                                                         PUnwrapPositive),
+                                                         st2), log1), n2))
+                                                  | None ->
+                                                    ((((OFailure FNoTerm),
+                                                      st2), log1), n2))
+                                          | None ->
+                                            ((((OPickNotMax (n2, p2)), st1),
+                                              log1), n2))
+                                  | None ->
+                                    ((((OMismatch (n2, (Npos (XO (XI XH))))),
+                                      st1), log1), n2))
+                               | _ ->
+                                 ((((OMismatch (n2, (Npos (XO (XO XH))))),
+                                   st1), log1), n2)))
+                         | None ->
+                           res_out log1 n2 (extract_solution p1) (fun sol ->
+                             ((((OSolution sol),
+                             (upd_ps st1 (with_queue q))), log1), n2)) st1)
+                      | Inr o0 -> (((o0, st1), log), (S n0)))
+                   | UPConflict (st1, id) ->
+                     (match build_derivation_tree st1.store id with
+                      | Some t0 -> ((((ONoSolution t0), st1), log), (S n0))
+                      | None -> ((((OPanic PTreeMissing), st1), log), (S n0))))
+                | Inr o0 ->
+                  (match o0 with
+                   | EFuel -> (((OOutOfFuel, st), log), (S n0))
+                   | EPanic s -> ((((OPanic s), st), log), (S n0))))
+        | _ -> ((((OMismatch (n0, (Npos (XI (XO XH))))), st), log), n0)))
+
+(** val resolve_h :
+    ('a1, 'a2) vSOps -> ('a2 -> 'a2 -> bool) -> nat -> pkg0 -> 'a2 -> ('a1,
+    'a2) event list -> ('a1, 'a2) result **)
+
+let resolve_h o veqb0 fuel r v tr =
+  resolve_loop_h o veqb0 fuel (state_init o r v) r [] [] tr O []
 
 type json =
 | JNull
